@@ -10,6 +10,7 @@
 mod index;
 mod print;
 mod rewrite;
+mod textforms;
 mod spec;
 
 use std::collections::BTreeMap;
@@ -63,6 +64,22 @@ fn main() {
                         println!("{}\t{}:{}-{}\t{}", k, f.file, f.line, f.end_line, f.from_macro.clone().unwrap_or_default());
                     }
                 }
+                return;
+            }
+            "--textforms" => {
+                // literal tables of the human-readable converters of a type: Display (variant -> text),
+                // FromStr / From<&str> (text -> variant, with the fall-through arm)
+                let ty = args[i + 1].clone();
+                let idx = index::Index::build(&format!("{}/src", repo));
+                let mut out = serde_json::Map::new();
+                for (label, key) in [("display", format!("[core::fmt::Displayfor{}]::fmt", ty)), ("display", format!("[Displayfor{}]::fmt", ty)),
+                                     ("from_str", format!("[core::str::FromStrfor{}]::from_str", ty)), ("from_str", format!("[FromStrfor{}]::from_str", ty)),
+                                     ("from_strref", format!("[From<&str>for{}]::from", ty))] {
+                    if let Some(v) = idx.fns.get(&key) {
+                        if v.len() == 1 { out.insert(label.to_string(), textforms::table(&v[0].text, &ty)); }
+                    }
+                }
+                println!("{}", serde_json::Value::Object(out));
                 return;
             }
             "--lenient" => { rewrite::LENIENT.store(true, std::sync::atomic::Ordering::Relaxed); i += 1; }
